@@ -1,0 +1,37 @@
+//go:build verif
+
+package verifspec
+
+// Contracts for the slice / string runtime of compiler/prelude (properties C07, C08, C14).
+// A slice is a record {$array, $offset, $length, $capacity} with 0 <= $length <= $capacity, $offset + $capacity <= $array.length.
+
+// Go: s[low:high] on a string panics unless 0 <= low <= high <= len(s).
+//@ js prelude.js $substring
+//@ property C08 C14
+//@   param str: str, low: int32, high: int32
+//@   throws_if !(0 <= low && low <= high && high <= len(str))
+//@   throws_msg slice bounds out of range
+//@   returns str
+//@   ensures len(result) == high - low && forall(k, 0, high - low, result[k] == str[low + k])
+
+// Go: s[low:high:max] panics unless 0 <= low <= high <= max <= cap(s) (defaults: high = len(s), max = cap(s)); the
+// result shares the array, starts low elements later, and has length high-low and capacity max-low; nil stays nil.
+//@ pure hi(undefHigh bool, high int, length int) int = undefHigh ? length : high
+//@ js prelude.js $subslice
+//@ property C07 C08
+//@   param slice: slice, low: int32, high: opt int32, max: opt int32
+//@   throws_if !(0 <= low && low <= hi(undef(high), high, slice.$length) && hi(undef(high), high, slice.$length) <= hi(undef(max), max, slice.$capacity) && hi(undef(max), max, slice.$capacity) <= slice.$capacity)
+//@   throws_msg slice bounds out of range
+//@   returns slice
+//@   ensures slice.$nil ==> result.$nil && result.$length == 0 && result.$capacity == 0
+//@   ensures !slice.$nil ==> !result.$nil && sameobj(result.$array, slice.$array) && result.$offset == slice.$offset + low
+//@   ensures !slice.$nil ==> result.$length == hi(undef(high), high, slice.$length) - low && result.$capacity == hi(undef(max), max, slice.$capacity) - low
+
+// Go: make([]T, n, m) panics unless 0 <= n <= m <= MaxInt32 (int is 32 bits).
+//@ js types.js $makeSlice
+//@ property C08 C07
+//@   param typ: slicetype, length: int, capacity: opt int
+//@   throws_if length < 0 || length > 2147483647 || hi(undef(capacity), capacity, length) < length || hi(undef(capacity), capacity, length) > 2147483647
+//@   returns slice
+//@   ensures !result.$nil && result.$offset == 0 && result.$length == length && result.$capacity == hi(undef(capacity), capacity, length)
+//@   loop 1 invariant 0 <= i
